@@ -367,6 +367,13 @@ class GscTap(GlobalStopCondition):
             else:
                 site, deme = "other", None
         raw = self.inner(tree)
+        if not isinstance(tree, DemeTree):
+            # a caller handed something else than the tree to the stop condition: the verdict is passed on as it
+            # is, the monitors get the real tree
+            w.probe("gsc-consulted-with-non-tree-argument")
+            if w.tree is None:
+                return bool(raw)
+            tree = w.tree
         return w.on_consult(tree, site, deme, raw)
 
     def __str__(self):
@@ -499,6 +506,8 @@ class SimDemeTree(DemeTree):
     # (the overrides pass arguments and return values through untouched: a changed pyhms may use them)
     def run_step(self, *a, **k):
         w = _WORLDS[self._sim_key]
+        if w.shadow:
+            return super().run_step(*a, **k)
         w.on_step_begin(self)
         ret = super().run_step(*a, **k)
         w.on_step_end(self)
@@ -506,6 +515,8 @@ class SimDemeTree(DemeTree):
 
     def run_metaepoch(self, *a, **k):
         w = _WORLDS[self._sim_key]
+        if w.shadow:
+            return super().run_metaepoch(*a, **k)
         w.on_metaepoch_begin(self)
         ret = super().run_metaepoch(*a, **k)
         w.on_metaepoch_end(self)
@@ -513,6 +524,8 @@ class SimDemeTree(DemeTree):
 
     def run_sprout(self, *a, **k):
         w = _WORLDS[self._sim_key]
+        if w.shadow:
+            return super().run_sprout(*a, **k)
         w.on_sprout_begin(self)
         ret = super().run_sprout(*a, **k)
         w.on_sprout_end(self)
@@ -622,6 +635,7 @@ class World:
         self.caps = plan.get("caps", {})
         self.seq = 0
         self.in_monitor = 0
+        self.shadow = False  # a monitor is stepping a detached copy of the tree: nothing is announced or recorded
         self.tree = None
         self.tree_ready = False
         self.step = 0  # number of run_step calls begun
@@ -877,6 +891,8 @@ class World:
 
     # ---------------------------------------------------------------- evaluation path
     def tap_enter(self, tap, phenome):
+        if self.shadow:
+            return None
         st = self.stacks[tap.stack_id]
         st["n_in"][tap.pos] += 1
         if self._hooks["on_tap_enter"]:
@@ -901,6 +917,8 @@ class World:
         return None
 
     def tap_exit(self, tap, tok, phenome, ret):
+        if self.shadow:
+            return
         if self._hooks["on_tap_exit"]:
             self._dispatch("on_tap_exit", tap, phenome, ret)
         if tok is not None:
@@ -914,6 +932,8 @@ class World:
             self._dispatch("on_request", req)
 
     def on_invocation(self, otap, x, v):
+        if self.shadow:
+            return
         self.n_invocations += 1
         self.clock.on_call(self.n_invocations)
         st = self.stacks[otap.stack_id]
